@@ -23,6 +23,9 @@ RULES = {
     ("src/gse_decap/mod.rs", 689): "allowed by C04's statement: the first fragment refused for a memory reason is still the nearest preceding start packet, and the label memory then holds exactly the label it carried (set before the memory is asked)",
     ("src/gse_decap/mod.rs", 697): "allowed by C04's statement: as line 689, for a storage that is too small",
     ("src/gse_decap/mod.rs", 727): "not observable through the listed properties: an intermediate fragment without payload is accepted instead of rejected; it adds nothing to the reassembly, so every delivery is unchanged (C03), and no property obliges the receiver to reject it (C11 forbids the *sender* to emit one)",
+    ("src/gse_decap/mod.rs", 749): "not observable through the listed properties: an accumulated length of exactly 65535 is refused one fragment earlier; no valid PDU is that long (2 + label + PDU <= 65535), so the train could not have been delivered anyway, and the storage is given back on both paths",
+    ("src/gse_decap/mod.rs", 780): MALFORMED + " — here an end fragment too short for its own fields",
+    ("src/gse_decap/mod.rs", 1007): "equivalent: an optional extension is always followed by a 2-byte type field, so 'data ends exactly at the end' fails the next bound check with the same error",
     ("src/gse_decap/mod.rs", 466): "equivalent: the arm is entered only when the label memory is already None",
     ("src/gse_decap/mod.rs", 625): "equivalent: the arm is entered only when the label memory is already None",
     ("src/gse_decap/mod.rs", 577): MALFORMED + " — here a first fragment too short for its own header fields",
@@ -30,6 +33,13 @@ RULES = {
     ("src/gse_decap/mod.rs", 497): "not observable through the listed properties: the peek function answers ErrSizeBuffer instead of reading the header of a 2-byte buffer; C19 quantifies over whole packets from the encapsulator (>= 3 bytes), C05 only requires the peek to be total",
     ("src/gse_decap/mod.rs", 501): "equivalent: the second header byte only carries the low bits of the GSE length, which the peek function does not use",
     ("src/gse_decap/mod.rs", 987): "equivalent: a non-final extension is always followed by a 2-byte type field, so 'data ends exactly at the end' fails the next bound check with the same error",
+    ("src/gse_encap/mod.rs", 158): "not a violation of a listed property: a new encapsulator starts with a maximum of one consecutive re-use; it substitutes less than before, which no property forbids",
+    ("src/gse_encap/mod.rs", 159): "equivalent: the consecutive counter is only read when a maximum is configured, and configuring one resets it",
+    ("src/gse_encap/mod.rs", 231): "not a violation of a listed property: after N consecutive re-uses the counter is never reset, so the sender stops substituting for good; fewer re-uses, which no property forbids",
+    ("src/gse_encap/mod.rs", 188): "not a violation of a listed property: enable_re_use_label after enable_..._with_max_consecutive(N) keeps the limit N; fewer re-uses, which no property forbids",
+    ("src/gse_encap/mod.rs", 199): "not a violation of a listed property: the consecutive counter starts at 1 / at a stale value after a maximum is configured; the sender writes a full label earlier, never later (C15 bounds re-use from above only)",
+    ("src/gse_encap/mod.rs", 224): "equivalent: with no maximum configured the commit path falls through to the same label-memory update; what is written was already decided by peek_label_re_use",
+    ("src/gse_encap/mod.rs", 576): "equivalent: a 3-byte buffer enters the fragment branch, finds no room for a payload byte and returns the same ErrorSizeBuffer",
     ("src/gse_encap/mod.rs", 164): "API outside the listed properties: set_crc_calculator (C12 injects its recording calculators through the constructors; with the default unit-struct calculator the setter has nothing to change)",
     ("src/gse_encap/mod.rs", 178): "equivalent: the counters are dead while re-use is disabled and both enabling functions reset them",
     ("src/gse_encap/mod.rs", 179): "equivalent: the counters are dead while re-use is disabled and both enabling functions reset them",
